@@ -46,6 +46,23 @@ def lean_files_of(module):
     return [root + m.replace(".", "/") + ".lean" for m in seen]
 
 
+def audit_modules(modules, tier):
+    """audit the main property module and its companion modules; counts are summed"""
+    total = None
+    for m in modules:
+        r = audit_module(m, tier)
+        if total is None:
+            total = r
+        else:
+            for k in ("obligations", "discharged"):
+                total[k] += r[k]
+            for k in ("theorems", "problems", "partial", "full_statements_unproved"):
+                total[k] = total.get(k, []) + r.get(k, [])
+            total["axioms"] = sorted(set(total["axioms"]) | set(r["axioms"]))
+            total["checker_cmd"] += " ; " + r["checker_cmd"]
+    return total
+
+
 def audit_module(module, tier):
     res = {"obligations": 0, "discharged": 0, "theorems": [], "axioms": [], "problems": [],
            "checker_cmd": "cd /verif/lean && lake build %s && lake env lean work/Audit_%s.lean (#print-axioms of every theorem) && lake env leanchecker %s"
@@ -73,10 +90,11 @@ def audit_module(module, tier):
         res["problems"].append("audit file failed to elaborate: " + out[-1500:])
         return res
     axioms_all = set()
-    ns = "Irc." + module.split(".")[-1] + "."
     for m in re.finditer(r"THEOREM (\S+) AXIOMS \[(.*?)\]", out):
         name = m.group(1)
-        if not name.startswith(ns) or re.search(r"\.(eq_\d+|_\w+|match_\d+|proof_\d+)", name[len(ns) - 1:]):
+        # compiler-generated lemmas (equation lemmas, injectivity, matchers ...) are not obligations
+        if not name.startswith("Irc.") or re.search(
+                r"\.(eq_\d+|eq_def|eq_unfold|congr_simp|sizeOf_spec|injEq|inj|match_\d+|proof_\d+|induct\w*|fun_cases\w*|_\w+)(\.|$)|\._", name):
             continue
         axs = [a.strip() for a in m.group(2).split(",") if a.strip()]
         res["obligations"] += 1
